@@ -175,7 +175,7 @@ def rule_check_crl(ctx):
         n_ok += 1
         cm = p.cond_map()
         uri_eq = any(v.startswith('cmp(') and 'crl_uri' in v and labs <= {'Equal'} for v, labs in cm.items())
-        has_uri = any('Cert::crl_uri' in v and labs == {'Some'} for v, labs in cm.items())
+        has_uri = any('Cert::crl_uri' in v and labs and labs <= {'Some', 'pass', 'Ok'} for v, labs in cm.items())
         not_rev = any('Crl::contains' in v and labs == {'false'} for v, labs in cm.items())
         ctx.check(uri_eq and has_uri and not_rev, 'K4', 'check_crl:Ok=>uri-equal&not-revoked',
                   'check_crl returns Ok only if the certificate names the manifest CRL and its serial is not on it',
